@@ -195,6 +195,36 @@ def owned_transports(root) -> set[int]:
     return out
 
 
+def h2_credit_leaks(pool) -> list[dict]:
+    """Connection-level flow-control credit that live HTTP/2 connections of the pool owe and have not even noted down.
+
+    To be asked at quiescence with no response open: by then every DATA byte that has arrived was either consumed or given up,
+    so what the client's window manager (h2 package) has received but neither returned nor queued for return must be zero:
+    max_window - current_window - bytes_processed == 0. The h2 state objects are found by reachability from pool.connections."""
+    import h2.connection
+    out = []
+    seen = set()
+    stack = list(pool.connections)
+    while stack:
+        o = stack.pop()
+        if id(o) in seen:
+            continue
+        seen.add(id(o))
+        if isinstance(o, h2.connection.H2Connection):
+            if o.state_machine.state == h2.connection.ConnectionState.CLOSED:
+                continue
+            wm = o._inbound_flow_control_window_manager
+            owed = wm.max_window_size - wm.current_window_size - wm._bytes_processed
+            if owed != 0:
+                out.append({"owed": owed, "window": wm.current_window_size, "max": wm.max_window_size, "noted": wm._bytes_processed})
+            continue
+        if isinstance(o, (Transport, Net, type, simnet.SimAsyncStream, simnet.SimSyncStream)):
+            continue
+        if isinstance(o, _CONTAINERS) or (type(o).__module__ or "").startswith("httpcore"):
+            stack.extend(gc.get_referents(o))
+    return out
+
+
 POOL_RE = re.compile(r"Requests: (\d+) active, (\d+) queued \| Connections: (\d+) active, (\d+) idle")
 
 
